@@ -138,6 +138,8 @@ func runC13(p *Prog, r *Result) {
 	checkQuoteReturns(p, r, "R13h")
 	r.Rule("R13i", "every word the statement parser dispatches on is quoted by Quote: it holds a character Quote quotes for, or a word predicate negated before the bare return lists it", 25)
 	checkQuoteCoversParserWords(p, r, p.Pkg("syntax"), "R13i")
+	r.Rule("R13j", "in Quote a rune is narrowed to a byte only where it is known to be below utf8.RuneSelf: \\xHH in $'…' is a byte, not a code point (0 instances on the pinned tree, which writes the input's own byte; armed by a control; the check is C17's R17d)", 0)
+	checkRuneNarrowingIn(p, r, "syntax", "Quote", "R13j", "a \\xHH escape in $'…' is one byte, so U+00A0 written as \\xa0 expands to an invalid lone byte instead of the two bytes of the character")
 
 	fd := p.FuncDecl("syntax", "Quote")
 	if fd == nil || fd.Body == nil {
@@ -556,6 +558,8 @@ func runC13(p *Prog, r *Result) {
 }
 
 var c13Controls = []Control{
+	{Name: "latin1-code-points-written-as-one-byte", Rule: "R13j", WantKey: "Quote#byte(r)", File: "syntax/quote.go",
+		Mutate: ctlReplaceAnywhere("\t\t\tcase r < utf8.RuneSelf, r == utf8.RuneError && size == 1:\n\t\t\t\t// \\xXX, fixed at two hexadecimal characters.\n\t\t\t\tfmt.Fprintf(&b, \"\\\\x%02x\", rem[0])\n", "\t\t\tcase r <= 0xff, r == utf8.RuneError && size == 1:\n\t\t\t\tc := rem[0]\n\t\t\t\tif size > 1 {\n\t\t\t\t\tc = byte(r)\n\t\t\t\t}\n\t\t\t\tfmt.Fprintf(&b, \"\\\\x%02x\", c)\n")},
 	{Name: "elif-not-a-keyword", Rule: "R13i", WantKey: "the parser's word \"elif\" is quoted", File: "syntax/parser.go",
 		Mutate: ctlReplaceAnywhere("\t\t\"done\",\n\t\t\"elif\",\n", "\t\t\"done\",\n")},
 	{Name: "clause-words-returned-bare", Rule: "R13i", WantKey: "the parser's word \"let\" is quoted", File: "syntax/quote.go",
